@@ -535,6 +535,15 @@ func cmdCheck(args []string) {
 		"engine_notes":             nts,
 		"backends":                 backends,
 		"solver_time_s":            float64(solverMs) / 1000.0,
+		"slowest_obligations": func() []map[string]interface{} {
+			rs := append([]*row{}, rows...)
+			sort.Slice(rs, func(i, j int) bool { return rs[i].o.Millis > rs[j].o.Millis })
+			var out []map[string]interface{}
+			for i := 0; i < len(rs) && i < 10; i++ {
+				out = append(out, map[string]interface{}{"obligation": rs[i].o.Name, "ms": rs[i].o.Millis, "solver": rs[i].o.Solver})
+			}
+			return out
+		}(),
 		"solver_wall_s":            solveWall,
 		"load_s":                   cr.loadSecs,
 		"vcgen_s":                  cr.genSecs,
